@@ -1,11 +1,17 @@
 import TbbVerif.Core.Proto
 import TbbVerif.Model.C08
+import TbbVerif.Model.C08Q
+import TbbVerif.Model.C08S
 
 open TbbVerif
 
 def drivers : List (String × Proto.Driver) := [
   ("c08rw", C08.driverRw),
-  ("c08spin", C08.driverSpin)
+  ("c08spin", C08.driverSpin),
+  ("c08mcs", C08.Mcs.driver),
+  ("c08qrw", C08.QRw.driver),
+  ("c08mx", C08.Slp.driverMx),
+  ("c08rwm", C08.Slp.driverRw)
 ]
 
 def main (args : List String) : IO UInt32 := Proto.mainOf drivers args
